@@ -46,9 +46,9 @@ def find_loop_over(f, pred):
     return loops
 
 
-def body_eval(prog, f, stmts, seed=None, rename=None):
+def body_eval(prog, f, stmts, seed=None, rename=None, inline_self=False, no_inline=()):
     """Forward substitution over a statement list only (outer names stay symbols)."""
-    ev = SymEval(prog, f, seed=seed, rename=rename)
+    ev = SymEval(prog, f, seed=seed, rename=rename, inline_self=inline_self, no_inline=no_inline)
     ev.env = {}
     try:
         ev.block(stmts)
